@@ -651,3 +651,69 @@ func ruleSnapshotCurrent(c *Ctx) {
 			"snapshot re-read and gate closed on the same path", "the subscription is put back to stateReady with the load-time snapshot (events advanced its version but never the snapshot) and with its event gate open: events keep flowing for a resource the client dropped, and a later hand-out delivers stale content that nothing corrects")
 	}
 }
+
+// PAIR/sent-with-frame (C02): an edge to an already sent resource is counted
+// as sent (indirectsent++) at the moment the frame that shows the edge to the
+// client is handed over — not earlier. Between the count and the Send there
+// is no point at which the handler gives up the connection worker (waiting
+// for references to load): while it waits, the client can release its other
+// paths to the resource, which then stays 'sent' on the strength of an event
+// the client has not received, and the event later carries a reference
+// without data.
+func ruleSentWithFrame(c *Ctx) {
+	p := c.P
+	fISent := p.Field("server.Subscription.indirectsent")
+	onReady := p.Method("server.Subscription.OnReady")
+	send := []*types.Func{p.Method("server.ConnSubscriber.Send"), p.Method("server.wsConn.Send")}
+	if fISent == nil || onReady == nil {
+		c.undecided("server.Subscription.indirectsent", "anchor", "-", "not found")
+		return
+	}
+	for _, nm := range []string{"(*server.Subscription).processModelEvent", "(*server.Subscription).processCollectionEvent"} {
+		fn := p.Fn(nm)
+		if fn == nil {
+			c.undecided(nm, "anchor", "-", "not found")
+			continue
+		}
+		c.inst(1)
+		sp := &Spec{EdgeLimit: 1}
+		sp.Classify = func(t *Tracer, fr *Frame, in ssa.Instruction) []Ev {
+			if st, ok := isStoreTo(in, fISent); ok {
+				if b, isB := st.Val.(*ssa.BinOp); isB && b.Op == token.ADD {
+					return []Ev{{Kind: "sent++"}}
+				}
+			}
+			if _, ok := isCallTo(in, onReady); ok {
+				return []Ev{{Kind: "wait"}}
+			}
+			if _, ok := isCallTo(in, send...); ok {
+				return []Ev{{Kind: "send", Stop: true}}
+			}
+			return nil
+		}
+		// the populate functions count and are followed by the Send in the same task: not descended into
+		sp.Inline = func(t *Tracer, fr *Frame, cl ssa.CallInstruction, f *ssa.Function) bool { return f.Parent() != nil }
+		sp.NoHelpers = true
+		tr := runTrace(p, fn, sp)
+		bad := ""
+		for _, path := range tr.Paths {
+			pending := false
+			for _, e := range path {
+				switch e.Kind {
+				case "sent++":
+					pending = true
+				case "send":
+					pending = false
+				case "wait":
+					if pending {
+						bad = "an edge is counted as sent before the handler waits for other references to load; the frame that shows it to the client is only written afterwards: " + tr.FmtPath(path)
+					}
+				}
+			}
+		}
+		if tr.Trunc {
+			bad = "path budget exhausted"
+		}
+		c.check(bad == "", nm, "an edge is counted as sent in the same task that hands its frame to the client", p.Pos(fn.Pos()), fmt.Sprintf("%d paths", len(tr.Paths)), bad)
+	}
+}
